@@ -75,7 +75,7 @@ var encryptErrExceptions = []ErrException{
 
 func runC09(c *Ctx) {
 	p, r := c.P, c.R
-	r.Explanation = "Decides the fail-closed and secure-default clauses structurally: every return of every Node.Process implementation of the repository carries a nil event or a nil error (never both non-nil); inside the encrypt walk no fallible call's error is dropped and each is returned (itself or wrapped) on every path of its error branch, so it reaches Process's error result; rotation payloads are consumed; DefaultFilterOperations is the literal table {public: none, sensitive: encrypt, secret: redact}, a missing tag yields (unknown, unknown) and convertToOperation is the identity on the declared constants; the full decision table of filterValue over classification x operation (no mutation iff public or none; secret/sensitive -> encrypt | hmac | redact per operation, anything else an error; every other classification redacted) including which early exits skip protection; NoOperation never survives for sensitive/secret unless it came from the override map; the handler inventory of the three reflective dispatchers; and that struct values handed to the field walk are settable or replaced by an addressable copy. It does not decide that the reflective walk reaches every string of every payload shape (reflection is opaque), nor cryptographic secrecy. C09.tagpair: every on-the-spot classification is computed from the tag that belongs to the very value being filtered (field i / the same PointerTag, in classification,operation order; write-back pointer and tracking entry agree; bare payloads are secret)."
+	r.Explanation = "Decides the fail-closed and secure-default clauses structurally: every return of every Node.Process implementation of the repository carries a nil event or a nil error (never both non-nil); inside the encrypt walk no fallible call's error is dropped and each is returned (itself or wrapped) on every path of its error branch, so it reaches Process's error result; rotation payloads are consumed; DefaultFilterOperations is the literal table {public: none, sensitive: encrypt, secret: redact}, a missing tag yields (unknown, unknown) and convertToOperation is the identity on the declared constants; the full decision table of filterValue over classification x operation (no mutation iff public or none; secret/sensitive -> encrypt | hmac | redact per operation, anything else an error; every other classification redacted) including which early exits skip protection; NoOperation never survives for sensitive/secret unless it came from the override map; the handler inventory of the three reflective dispatchers; and that struct values handed to the field walk are settable or replaced by an addressable copy. It does not decide that the reflective walk reaches every string of every payload shape (reflection is opaque), nor cryptographic secrecy. C09.tagpair: every on-the-spot classification is computed from the tag that belongs to the very value being filtered (field i / the same PointerTag, in classification,operation order; write-back pointer and tracking entry agree; bare payloads are secret). C09.skip: closed vocabulary of skip conditions in the walkers; C09.mark: keys are marked filtered only in the map that directly holds the value; a payload that is itself a map is tracked for the final sweep."
 	r.NotDecided = []string{"completeness of the reflective walk over all payload shapes (arm priority, pointer depth, arrays, shapes falling into the 'nothing reasonable yet' defaults)", "cryptographic secrecy of the wrapper"}
 	c.errControls()
 
@@ -132,6 +132,7 @@ func runC09(c *Ctx) {
 	c.ruleNoPass()
 	c.ruleHandlers()
 	c.ruleSkip()
+	c.ruleMarkFiltered()
 	c.ruleSettable()
 
 	// processUnfiltered runs before every successful return of a filtered copy
@@ -180,6 +181,31 @@ func runC09(c *Ctx) {
 			r.Check(tracked, "C09.handlers", "Process:map-payload-tracked", p.InstrPos(pa.End), "a payload that is a map is tracked for the final sweep", "a payload established to be a map (for example a Taggable map none of whose tags matches a key) is forwarded without ever being tracked: the sweep has nothing to visit and every value of the map leaves in plaintext")
 		}
 	}
+	// a payload that is a map but NOT Taggable has its own arm: some successful path established
+	// both facts and tracked the payload
+	plainMap := false
+	kMapS2 := fmt.Sprint(c.reflectKind("Map"))
+	for _, pa := range paths {
+		rv := pa.RetVals()
+		if rv == nil || isNilConst(rv[0]) || !isNilConst(rv[1]) {
+			continue
+		}
+		tg, f1 := hasAtom(pa, func(at Atom) bool {
+			return at.Op == "true" && at.L.Op == "Extract" && at.L.Name == "1" && at.L.Args[0].Is("Assert", "encrypt.Taggable") && !strings.Contains(at.L.String(), "(reflect.Value).Index")
+		})
+		mp, f2 := hasAtom(pa, func(at Atom) bool {
+			return at.Op == "eq" && at.L.Is("Call", "(reflect.Value).Kind") && at.R.Is("Const", kMapS2) && !strings.Contains(at.L.String(), "(reflect.Value).Index")
+		})
+		if !(f1 && !tg && f2 && mp) {
+			continue
+		}
+		for _, s := range pa.CallsOn() {
+			if stepCallName(s) == "(*filters/encrypt.trackedMaps).trackMap" && s.Depth == 0 {
+				plainMap = true
+			}
+		}
+	}
+	r.Check(plainMap, "C09.handlers", "Process:plain-map-payload", p.Pos(proc.Pos()), "a payload that is a map and not Taggable is tracked for the final sweep", "no successful path of Process establishes 'payload is a map, not Taggable' and tracks it: an untagged map payload (map[string]interface{}, map[string]string) would be forwarded with every value in plaintext")
 	r.Check(nOK > 0, "C09.handlers", "Process:sweep-before-return", p.Pos(proc.Pos()), "every successful return of a filtered copy is preceded by processUnfiltered (or the IgnoreTypes shortcut)", "no successful filtered return found")
 }
 
@@ -217,7 +243,7 @@ func (c *Ctx) checkTrackMapExceptions() {
 					continue
 				}
 				k, isK := constInt(bo.Y)
-				if isK && k == mapKind && (tsucc == b || tsucc.Dominates(call.Block())) {
+				if isK && k == mapKind && edgeDominates(b.Idom(), tsucc, call.Block()) {
 					okDom = true
 				}
 			}
@@ -893,7 +919,7 @@ func (c *Ctx) ruleSettable() {
 
 func runC10(c *Ctx) {
 	p, r := c.P, c.R
-	r.Explanation = "Decides that every mutation performed by encrypt.Filter.Process is applied to the private deep copy: MUT is the set of functions of the package that can reach reflect.Value.Set*/SetMapIndex or pointerstructure.Set (computed from the call graph); in Process every call into MUT is dominated by the success edge of the deep-copy call and none of its arguments derives from the original event except through the copy's result; every return of the original event itself (nil payload, all-NoOperation configuration, zero payload) has a nil error and no MUT call before it; no function of the package stores into a field of a Process event parameter. That copystructure.Copy is deep for every shape, and the preservation of the output's shape/lengths/keys, are not decided (third-party semantics, reflection)."
+	r.Explanation = "Decides that every mutation performed by encrypt.Filter.Process is applied to the private deep copy: MUT is the set of functions of the package that can reach reflect.Value.Set*/SetMapIndex or pointerstructure.Set (computed from the call graph); in Process every call into MUT is dominated by the success edge of the deep-copy call and none of its arguments derives from the original event except through the copy's result; every return of the original event itself (nil payload, all-NoOperation configuration, zero payload) has a nil error and no MUT call before it; no function of the package stores into a field of a Process event parameter. That copystructure.Copy is deep for every shape, and the preservation of the output's shape/lengths/keys, are not decided (third-party semantics, reflection). C10.guards (what dominates the copy), C10.public (no mutation without excluding public), C10.sinks (closed vocabulary of reflective mutations), C10.resweep (a separately tracked nested map is not swept through its parent)."
 	r.NotDecided = []string{"copystructure.Copy being a deep copy for every payload shape (A4)", "preservation of dynamic type, container lengths and keys in the output (runtime values behind reflection)"}
 	proc := c.Fn("C10.anchor", PkgEncrypt, "Filter", "Process")
 	if proc == nil {
@@ -1156,6 +1182,10 @@ func runC10(c *Ctx) {
 		}
 	}
 
+	c.ruleMutationSinks()
+	c.ruleNoResweep()
+	c.rulePointerValues()
+
 	// --- C10.none
 	nProc := 0
 	for _, f := range c.processImpls() {
@@ -1208,7 +1238,7 @@ func mentionsOutside(t *Term, s string, cut ssa.Value) bool {
 
 func runC16(c *Ctx) {
 	p, r := c.P, c.R
-	r.Explanation = "Decides the key-selection and framing clauses: encrypt() encrypts exactly its data argument with the per-event wrapper option when present, else the filter's wrapper, and returns \"encrypted:\" + RawURL base64 of the marshalled blob; hmacSha256() derives a 32-byte key with NewDerivedReader(ctx, w, 32, salt, info) where w / salt / info are each the per-event option when non-nil else the filter's field (not swapped), MACs exactly its data argument with HMAC(SHA-256, key) and returns \"hmac-sha256:\" + RawURL base64; Process derives the per-event wrapper from NewEventWrapper(ctx, ef.Wrapper, EventId()) under the lock and hands the three per-event options to every value operation; all reads of Wrapper/HmacSalt/HmacInfo and the cryptographic call lie in one critical section, and Rotate / rotation payloads write them under the write lock (copying salt and info). Decrypt round-trip, HKDF and AEAD correctness are third-party semantics and not decided. Also the derivation shape: NewDerivedReader = LimitedReader{hkdf.New(sha256.New, checked key bytes of the wrapper argument, salt, info), lenLimit}; NewEventWrapper = aead wrapper keyed with ed25519.GenerateKey(NewDerivedReader(ctx, wrapper, >=32, f(eventId), g(eventId))) with every step checked, so the per-event key is a function of (wrapper key, event id) only."
+	r.Explanation = "Decides the key-selection and framing clauses: encrypt() encrypts exactly its data argument with the per-event wrapper option when present, else the filter's wrapper, and returns \"encrypted:\" + RawURL base64 of the marshalled blob; hmacSha256() derives a 32-byte key with NewDerivedReader(ctx, w, 32, salt, info) where w / salt / info are each the per-event option when non-nil else the filter's field (not swapped), MACs exactly its data argument with HMAC(SHA-256, key) and returns \"hmac-sha256:\" + RawURL base64; Process derives the per-event wrapper from NewEventWrapper(ctx, ef.Wrapper, EventId()) under the lock and hands the three per-event options to every value operation; all reads of Wrapper/HmacSalt/HmacInfo and the cryptographic call lie in one critical section, and Rotate / rotation payloads write them under the write lock (copying salt and info). Decrypt round-trip, HKDF and AEAD correctness are third-party semantics and not decided. Also the derivation shape: NewDerivedReader = LimitedReader{hkdf.New(sha256.New, checked key bytes of the wrapper argument, salt, info), lenLimit}; NewEventWrapper = aead wrapper keyed with ed25519.GenerateKey(NewDerivedReader(ctx, wrapper, >=32, f(eventId), g(eventId))) with every step checked, so the per-event key is a function of (wrapper key, event id) only. C16.forward: every walker hands its own options on."
 	r.NotDecided = []string{"decrypt round-trip and HKDF/AEAD correctness (go-kms-wrapping, x/crypto)", "determinism of derived wrappers beyond the arguments passed"}
 	c.lockControls()
 	must := c.MustLocks()
@@ -1447,6 +1477,7 @@ func runC16(c *Ctx) {
 	}
 	r.Floor("C16.atomic", 6)
 	c.ruleDerive()
+	c.ruleOptionsForwarded()
 }
 
 // derivesFromOpts: the variadic argument is the opts slice (make + appends of
